@@ -1136,9 +1136,20 @@ func (i *interpreter) rangeIter(fr *frame, x value) iter {
 			ents = append(ents, x.ents...)
 		}
 		if len(ents) >= 2 && i.w.mapOrderMatters(fr.fn) {
-			n := factorial(len(ents))
-			choice := i.newInputInt("maporder", types.Uint8, 0, int64(n-1), true)
-			ents = permute(ents, uint64(asInt64(i.concretize(choice))))
+			if len(ents) <= 3 {
+				// every permutation
+				n := factorial(len(ents))
+				choice := i.newInputInt("maporder", types.Uint8, 0, int64(n-1), true)
+				ents = permute(ents, uint64(asInt64(i.concretize(choice))))
+			} else {
+				// larger maps: insertion order or its reverse
+				choice := i.newInputInt("maporder", types.Uint8, 0, 1, true)
+				if asInt64(i.concretize(choice)) == 1 {
+					for a, b := 0, len(ents)-1; a < b; a, b = a+1, b-1 {
+						ents[a], ents[b] = ents[b], ents[a]
+					}
+				}
+			}
 		}
 		return &smapIter{ents: ents}
 	case string:
